@@ -876,7 +876,8 @@ class RecipeRun:
             if why == 'already baked':
                 self.V('C16', 'second_bake_accepted', key, "second bake accepted")
             elif why.startswith('declared but unused'):
-                self.V('C16', 'bake_with_unused_object', key, f"bake accepted although {why}", kid)
+                # (not excused by the bake-retry finding: that one is about steps applied twice, not about what counts as used)
+                self.V('C16', 'bake_with_unused_object', key, f"bake accepted although {why}", None)
             else:
                 self.V('C03', 'infeasible_step_baked', key, f"bake accepted although {why} ({self.steps[self.eager_fail_step]['call']})",
                        self.first_excuse(('C03', 'C08')) or kid)
@@ -1015,6 +1016,11 @@ class RecipeRun:
                 kind = self.last_step_kind_touching(n)
                 self.V('C08', 'bake_differs', ('bake', kind),
                        f"{n}: bake result differs from the eager reference: {diff}", kid)
+                if all(s['kind'] == 'transfer' for s in self.steps):
+                    # C02 for transfers made as recipe steps: what each step moves is what the same transfer moves directly
+                    self.V('C02', 'aliquot_recipe', ('bake', 'transfers'),
+                           f"{n}: a program of transfers only bakes to something else than the same transfers made directly: {diff}",
+                           kid or self.first_excuse(('C02',)))
                 if isinstance(a, rep.Plate):
                     # C07: a plate operation as a recipe step must give each well what the direct operation gives
                     self.V('C07', 'recipe_step_differs', ('bake', kind),
